@@ -1,24 +1,36 @@
 ----------------------------- MODULE SignalsOps -----------------------------
 (* C14: urwid.signals.  Pure operators over the abstract signal state, shared by the     *)
 (* state machine (Signals.tla) and the trace specification (SignalsTrace.tla).            *)
-(*   conn  : function (sender, name) -> sequence of entries [k, h, ws, us]                *)
-(*           k  = unique connection key, h = handler id,                                  *)
+(*   conn  : function (sender, name) -> sequence of entries [k, h, r, ua, ws, us]         *)
+(*           k  = unique connection key,                                                  *)
+(*           <<h, r>> = the CALLBACK: h = the function, r = the object it is bound to      *)
+(*                (0 = a plain function, r > 0 = the bound method  receiver_r.h).  A       *)
+(*                callback is what Python's == says it is: a function is equal to itself   *)
+(*                only; `obj.method` evaluated twice gives two objects that are ONE        *)
+(*                callback; the same method of two objects of one class are TWO callbacks  *)
+(*                (as are two methods of one object).  WHICH object the caller hands over  *)
+(*                (one it kept, one fetched afresh) plays no role.                         *)
+(*           ua = the deprecated positional `user_arg` (0 = None = not given; every other  *)
+(*                id is some value, true or false, that is not None),                      *)
 (*           ws = the weak arguments given at connect time (sequence of weak-arg ids),    *)
 (*           us = the user arguments given at connect time (sequence of integers: the     *)
 (*                CONTENT of whatever iterable the caller passed, at that moment)         *)
-(*           <<h, ws, us>> is the DESCRIPTOR of the connection: what disconnect-by-       *)
+(*           <<h, r, ua, ws, us>> is the DESCRIPTOR of the connection: what disconnect-by- *)
 (*           arguments names.  Two descriptors are the same connection arguments iff they *)
 (*           are equal as a whole: <<a>> and <<a, b>>, or <<>> and <<a>>, are different.  *)
 (*   frame : one emit in progress                                                         *)
-(*           [s, n, snap, disc, added, called, rets, i]                                   *)
+(*           [s, n, snap, disc, added, called, rets, i, em]                               *)
 (*           snap   = entries connected when the emit started (connection order)          *)
 (*           disc   = keys disconnected while the emit was in progress                    *)
 (*           added  = keys connected while the emit was in progress                       *)
 (*           called = keys invoked by this emit, in order;  rets = their return values    *)
+(*           em     = the emitted arguments (trace validation only)                       *)
 EXTENDS Integers, Sequences, FiniteSets, TLC
 
-Entry(k, h, ws, us) == [k |-> k, h |-> h, ws |-> ws, us |-> us]
-Desc(e) == <<e.h, e.ws, e.us>>
+Entry(k, h, r, ua, ws, us) == [k |-> k, h |-> h, r |-> r, ua |-> ua, ws |-> ws, us |-> us]
+Desc(e) == <<e.h, e.r, e.ua, e.ws, e.us>>
+NoUA == 0                                             \* user_arg = None: no argument is added
+UATail(ua) == IF ua = NoUA THEN <<>> ELSE <<ua>>      \* what a connection made with user_arg ua appends to every call
 Keys(seq) == {seq[j].k : j \in 1..Len(seq)}
 Range(seq) == {seq[j] : j \in 1..Len(seq)}
 Filter(seq, Keep(_)) == SelectSeq(seq, Keep)
@@ -28,24 +40,25 @@ WeakAlive(e, alive) == \A i \in 1..Len(e.ws) : e.ws[i] \in alive
 RemoveKey(seq, k) == SelectSeq(seq, LAMBDA e : e.k # k)
 RemoveWeak(seq, w) == SelectSeq(seq, LAMBDA e : ~HasWeak(e, w))   \* a connection lives only as long as ALL its weak arguments
 
-\* first entry made with exactly the arguments (h, ws, us), as disconnect-by-arguments finds it; 0 if none
-FirstMatch(seq, h, ws, us) ==
-  LET m == SelectSeq(seq, LAMBDA e : e.h = h /\ e.ws = ws /\ e.us = us) IN IF m = <<>> THEN 0 ELSE m[1].k
+\* first entry made with exactly the arguments (callback <<h, r>>, ua, ws, us), as disconnect-by-arguments finds it; 0 if none
+FirstMatch(seq, h, r, ua, ws, us) ==
+  LET m == SelectSeq(seq, LAMBDA e : e.h = h /\ e.r = r /\ e.ua = ua /\ e.ws = ws /\ e.us = us) IN IF m = <<>> THEN 0 ELSE m[1].k
 
 IsPrefix(a, b) == Len(a) <= Len(b) /\ \A i \in 1..Len(a) : a[i] = b[i]
 
 (* Contract of disconnect-by-arguments: `removed` (0 = nothing) is the key that left the list. *)
-DisconnectVerdict(seq, removed, h, ws, us) ==
-  LET want == FirstMatch(seq, h, ws, us)
+DisconnectVerdict(seq, removed, h, r, ua, ws, us) ==
+  LET want == FirstMatch(seq, h, r, ua, ws, us)
   IN IF removed = want THEN "-"
      ELSE IF removed = 0 THEN "disconnected_handler_never_called"      \* the named connection stays connected
      ELSE "disconnect_unconnected_does_nothing"                         \* something that was not named went away
 
-(* Contract of the arguments of one call: weak arguments, then the user arguments AS GIVEN AT CONNECT TIME, then the emitted ones. *)
-ArgsVerdict(e, passed_ws, passed_us) ==
-  IF passed_ws = e.ws /\ passed_us = e.us THEN "-" ELSE "weak_then_user_then_emit_args"
+(* Contract of the arguments of one call: weak arguments, then the user arguments AS GIVEN AT CONNECT TIME, then the emitted ones, *)
+(* then the deprecated user_arg whenever one was given (anything but None: 0, "", False, an empty tuple ... are arguments too).    *)
+ArgsVerdict(e, passed_ws, passed_us, passed_tail) ==
+  IF passed_ws = e.ws /\ passed_us = e.us /\ passed_tail = UATail(e.ua) THEN "-" ELSE "weak_then_user_then_emit_args"
 
-NewFrame(s, n, seq) == [s |-> s, n |-> n, snap |-> seq, disc |-> {}, added |-> {}, called |-> <<>>, rets |-> <<>>, i |-> 1]
+NewFrame(s, n, seq) == [s |-> s, n |-> n, snap |-> seq, disc |-> {}, added |-> {}, called |-> <<>>, rets |-> <<>>, i |-> 1, em |-> <<>>]
 
 \* every frame on the stack observes a disconnect / connect that happens during it
 NoteDisc(stack, ks) == [j \in 1..Len(stack) |-> [stack[j] EXCEPT !.disc = @ \cup ks]]
